@@ -221,12 +221,17 @@ type SeqCase struct {
 	Srcs  []eng.Q  `json:"srcs"`
 	Outs  []eng.Q  `json:"outs"`
 	Kinds []string `json:"kinds"`
+	// Opts: rendered in a set with TrimBlocks and LStripBlocks on (what is literal stays literal)
+	Opts bool `json:"opts,omitempty"`
 }
 
 func (c *SeqCase) ID() string {
 	var b strings.Builder
 	for _, s := range c.Srcs {
 		fmt.Fprintf(&b, "%q+", string(s))
+	}
+	if c.Opts {
+		b.WriteString(" TrimBlocks+LStripBlocks")
 	}
 	return b.String()
 }
@@ -273,6 +278,11 @@ func (c *SeqCase) Exec(t *eng.T) {
 	probeCalls = 0
 	ctx := pongo2.Context{"probe": func() string { probeCalls++; return "PROBE" }}
 	out := px.Render(nil, src.String(), ctx)
+	if c.Opts {
+		oset, _ := px.NewSet(nil)
+		oset.Options.TrimBlocks, oset.Options.LStripBlocks = true, true
+		out = px.RenderIn(oset, src.String(), ctx)
+	}
 	t.Outcome(out.Kind() + out.S)
 	if out.Failed() {
 		t.Fail("concat-error:"+kindKey, "fragments %s: source %q does not render: %s", c.ID(), src.String(), out)
@@ -354,6 +364,22 @@ func run(r *eng.Runner) {
 		r.Do(&SeqCase{Srcs: []eng.Q{v, " {{ 1 }} ", v}, Outs: []eng.Q{eng.Q(body), " 1 ", eng.Q(body)}, Kinds: []string{"verbatim", "var", "verbatim"}})
 		return !r.Stopped()
 	})
+
+	// what surrounds a verbatim block does not reach into it: dash markers of the neighbours, the whitespace options
+	vws := []string{"", " ", "\n", " \t", "\n ", "\r\n"}
+	r.Group("verbatim-neighbours", "c06.seq", fmt.Sprintf("a verbatim block whose body starts and ends with one of %d whitespace runs, between variables / block tags that carry dash markers on the sides facing it, plain and with TrimBlocks+LStripBlocks on: the body is emitted literally", len(vws)))
+	for _, a := range vws {
+		for _, b := range vws {
+			body := a + "v" + b
+			vb := "{% verbatim %}" + body + "{% endverbatim %}"
+			for _, opts := range []bool{false, true} {
+				r.Do(&SeqCase{Srcs: []eng.Q{eng.Q("{{ 1 -}}" + vb + "{{- 1 }}")}, Outs: []eng.Q{eng.Q("1" + body + "1")}, Kinds: []string{"verbatim-neighbours"}, Opts: opts})
+				r.Do(&SeqCase{Srcs: []eng.Q{eng.Q("{% if 1 -%}" + vb + "{%- endif %}")}, Outs: []eng.Q{eng.Q(body)}, Kinds: []string{"verbatim-neighbours"}, Opts: opts})
+				r.Do(&SeqCase{Srcs: []eng.Q{eng.Q("{% if 1 %}" + vb + "{% endif %}")}, Outs: []eng.Q{eng.Q(body)}, Kinds: []string{"verbatim-neighbours"}, Opts: opts})
+				r.Do(&SeqCase{Srcs: []eng.Q{eng.Q("x{{ 1 }}" + vb + "{% if 1 %}y{% endif %}")}, Outs: []eng.Q{eng.Q("x1" + body + "y")}, Kinds: []string{"verbatim-neighbours"}, Opts: opts})
+			}
+		}
+	}
 
 	// every templatetag argument, alone and surrounded by text and a second templatetag
 	r.Group("templatetag", "c06.seq", "all 8 templatetag arguments x 3 contexts")
